@@ -7,7 +7,7 @@
           | "S<0|1> <verdict as above> # p o n r ; ..."   S1: accepted by the extracted static discipline (OwnCheck.program_ok);
             then the model's ledger and the checker's verdict on it
    Skeleton syntax (see checks/c05.py, class Sk):
-     expr  P | (V x) | (Q x k) | (L n) | (U1 e) | (U2 a b) | (D e n) | (C a b) | (B n e..) | (F f arg..) | (X n|- arg..) | (A a b) | (I c a b)
+     expr  P | (V x) | (Q x k) | (L n) | (U1 e) | (U2 a b) | (D e n) | (G e k) | (C a b) | (B n e..) | (F f arg..) | (X n|- arg..) | (A a b) | (I c a b)
      arg   (v e) | (r x)
      stmt  K | (S s..) | (d x e) | (= x e) | (p x k e) | (e e) | (b s) | (i c a b) | (w c b) | (o b c) | (r c k b)
            | (f from to step 0|1 k b) | (E x n|- e k b) | B | N | (R) | (R e)
@@ -71,6 +71,7 @@ let rec expr = function
   | Lx [A "U1"; a] -> EUse1 (expr a)
   | Lx [A "U2"; a; b] -> EUse2 (expr a, expr b)
   | Lx [A "D"; a; A n] -> EDerive (expr a, ni n)
+  | Lx [A "G"; a; A k] -> EElem (expr a, nat k)
   | Lx [A "C"; a; b] -> EConcat (expr a, expr b)
   | Lx (A "B" :: A n :: cs) -> EBuild (ni n, List.fold_right (fun c r -> XCons (expr c, r)) cs XNil)
   | Lx (A "F" :: A f :: al) -> ECall (nat f, args al)
